@@ -54,7 +54,7 @@ void gen_def(rng_t *r, struct jls_signal_def_s *d, uint16_t signal_id, uint16_t 
             break;
         default: break;
     }
-    static const uint32_t dec[] = {0, 2, 3, 4, 7, 10, 100};
+    static const uint32_t dec[] = {0, 2, 3, 4, 7, 10, 100, 1};   /* 1 is below the minimum of 2 and is raised by the library */
     d->annotation_decimate_factor = RNG_PICK(r, dec);
     d->utc_decimate_factor = RNG_PICK(r, dec);
 }
